@@ -263,6 +263,13 @@ namespace Pistache::Http
 
             auto* response = static_cast<Response*>(message);
 
+            // Wait for more data while what we have is only the beginning of
+            // the version
+            static constexpr char VersionPrefix[] = "HTTP/1.";
+            const size_t available                = cursor.remaining();
+            if (available <= strlen(VersionPrefix) && memcmp(cursor.offset(), VersionPrefix, available) == 0)
+                return State::Again;
+
             if (match_raw("HTTP/1.1", strlen("HTTP/1.1"), cursor))
             {
                 // response->version = Version::Http11;
